@@ -180,17 +180,21 @@ func (w *w11Q) after(kind string, rel int64) {
 			}
 		}
 	}
+	// grants of one step are unordered for the observer: every user granted in this step counts
+	// as served before the re-grant check below
+	for _, u := range grantedUsers {
+		w.lastGrant[u] = w.step
+	}
 	for _, u := range grantedUsers {
 		s1 := w.lastKnown[u]
 		if s1 >= 0 {
+			checked := false
 			for v := 0; v < w.nUsers; v++ {
-				if v != u && w.liveSince[v] >= 0 && w.liveSince[v] < s1 {
-					r.Probe("queue.regrant_while_other_user_waits_checked")
-					break
+				if v == u || w.liveSince[v] < 0 || w.liveSince[v] >= s1 {
+					continue
 				}
-			}
-			for v := 0; v < w.nUsers; v++ {
-				if v != u && w.liveSince[v] >= 0 && w.liveSince[v] < s1 && w.lastGrant[v] < s1 {
+				checked = true
+				if w.lastGrant[v] < s1 {
 					sig := "plain"
 					if w.raisedWithWaiters {
 						sig = "after-capacity-raise"
@@ -200,11 +204,11 @@ func (w *w11Q) after(kind string, rel int64) {
 					return
 				}
 			}
+			if checked {
+				r.Probe("queue.regrant_while_other_user_waits_checked")
+			}
 		}
-	}
-	for _, u := range grantedUsers {
 		w.lastKnown[u] = w.step
-		w.lastGrant[u] = w.step
 	}
 	w.prevActive, w.prevPending = active, pending
 }
@@ -284,7 +288,7 @@ func w11QueueEpisode(b *w11Base, ep int) {
 	if faulty {
 		cancelOn = c.Intn(4, "q.cancel_on") != 0
 		hookOn = cancelOn && c.Intn(3, "q.hook_on") != 0
-		adjustOn = c.Intn(2, "q.adjust_on") == 1
+		adjustOn = b.adjustRun
 	}
 	b.hooks["queue.acquire.cancelled"] = hookOn
 	r.Config[fmt.Sprintf("ep%d", ep)] = fmt.Sprintf("queue users=%d cap=%d tasks=%d steps=%d cancel=%v hook=%v adjust=%v",
